@@ -29,7 +29,10 @@ def MRun.settle : Nat → MRun → MRun
     | none =>
       match firstIdx (fun c => c.token.isSome && !c.pending) r.s.cs with
       | some i => MRun.settle fuel (r.stepAt (.retry i) i)
-      | none => r
+      | none =>
+        match firstIdx (fun c => !c.queued && c.token.isNone && !c.pending) r.s.cs with
+        | some i => MRun.settle fuel (r.stepAt (.reenter i) i)
+        | none => r
 
 inductive MAct where
   | reg (keys : List Nat)
@@ -78,10 +81,10 @@ def dedupe (keys : List Nat) (rs : List MRun) : List MRun :=
 def MRun.settleAll (keys : List Nat) : Nat → MRun → List MRun
   | 0, r => [r]
   | fuel + 1, r =>
-    let movers := (r.s.cs.zipIdx.filter fun x => x.1.pending || x.1.token.isSome).map fun x => (x.2, x.1.pending)
+    let movers := (r.s.cs.zipIdx.filter fun x => x.1.pending || x.1.token.isSome || !x.1.queued).map fun x =>
+      (x.2, if x.1.pending then MStep.look x.2 else if x.1.token.isSome then MStep.retry x.2 else MStep.reenter x.2)
     if movers.isEmpty then [r]
-    else dedupe keys (movers.flatMap fun (i, pend) =>
-      MRun.settleAll keys fuel (r.stepAt (if pend then .look i else .retry i) i))
+    else dedupe keys (movers.flatMap fun (i, st) => MRun.settleAll keys fuel (r.stepAt st i))
 
 def MRun.actAll (keys : List Nat) (r : MRun) : MAct → List MRun
   | .reg ks =>
